@@ -16,10 +16,18 @@ type vReader struct {
 	pos    int
 	step   int
 	endErr error
+	// the io.Reader contract also allows the error to come together with the last bytes and not to be
+	// repeated: the next call then reports a clean end of file
+	errWithData bool
+	errGiven    bool
 }
 
 func (r *vReader) Read(p []byte) (int, error) {
 	if r.pos >= len(r.data) {
+		if r.errWithData && r.errGiven {
+			return 0, io.EOF
+		}
+		r.errGiven = true
 		return 0, r.endErr
 	}
 	n := len(p)
@@ -31,6 +39,10 @@ func (r *vReader) Read(p []byte) (int, error) {
 	}
 	copy(p[:n], r.data[r.pos:r.pos+n])
 	r.pos += n
+	if r.errWithData && r.pos >= len(r.data) && r.endErr != nil && n > 0 {
+		r.errGiven = true
+		return n, r.endErr
+	}
 	return n, nil
 }
 
@@ -98,17 +110,18 @@ func VerifC01_ChunkLoop(F, S, step int) {
 // io.ErrUnexpectedEOF, a corrupted one any other error - after an arbitrary prefix of a well-formed file:
 // the reader must end in a fatal report, never in a normal close of the channel.
 func VerifC17_ReadError(F, S, step, errKind int) {
-	if S < 2 || step < 1 || errKind < 1 || errKind > 2 {
+	if S < 2 || step < 1 || errKind < 1 || errKind > 4 {
 		vSkip()
 	}
 	file := vBytes(F, ">\nAx")
 	starts := make([]bool, F)
 	vAssume(vrFasta(file, starts))
 	end := io.ErrUnexpectedEOF
-	if errKind == 2 {
+	if errKind == 2 || errKind == 4 {
 		end = vErrCorrupt
 	}
-	kind := vCatch(func() { vReadAll(&vReader{data: file, step: step, endErr: end}, S) })
+	// errKind 3, 4: the error arrives with the last bytes, afterwards the stream says io.EOF
+	kind := vCatch(func() { vReadAll(&vReader{data: file, step: step, endErr: end, errWithData: errKind >= 3}, S) })
 	vAssert(kind == 2, "read-error-is-fatal")
 	vReach("end")
 }
